@@ -7,3 +7,22 @@ def register(reg):
       "small scope plus random lists, and the property clauses are evaluated on the real outputs.",
       "page ids distinct; indentations non-negative ints; engine-level path (_removePageRecords) exercised by histories.",
       "Lean 4 theorem by induction over the page list + differential correspondence")
+
+  reg("C21", "proof",
+      "identifiers.py is modelled exactly after Unicode normalisation (regex substitutions, lstrip, prefixing, "
+      "capitalisation, keyword loop, numeric suffix loop, the A..Z,AA.. generator, the batch loop). Proved for ALL "
+      "strings and ALL avoid sets: every loop terminates (fuel |avoid|+1 resp. |keywords|+1 suffices, pigeonhole: "
+      "add_suffix_terminates, gen_ident_fresh, sanitize_shape); pick_col_ident/pick_table_ident/pick_col_ident_list "
+      "return ids of shape [A-Za-z][A-Za-z0-9_]* that are not keywords, whose upper-case form is not in the avoid "
+      "set, table ids starting upper-case, batch ids pairwise different case-insensitively (pick_col_valid, "
+      "pick_table_valid, pick_list_valid); valid unused names are returned unchanged (pick_col_fixpoint, "
+      "pick_table_fixpoint, pick_list_fixpoint). Differentially validated only: that the model equals the real "
+      "functions (all pick_* and helper functions on Unicode-heavy random inputs plus all strings <=3/4 over a small "
+      "alphabet), and the property clauses re-evaluated on the real outputs with str.isidentifier/keyword.iskeyword.",
+      "Parameters (computed by the harness with the same stdlib calls, not modelled): NFKD normalisation + removal of "
+      "combining characters, str.upper on the avoid set (idempotence re-validated over all code points every run), "
+      "keyword.kwlist (regenerated into lean/Generated/Keywords.lean every run; proofs need only: no keyword ends "
+      "in a digit or is all upper-case, re-proved by decide). 'Valid' = ASCII identifier shape; 'case-insensitive' "
+      "= equality of str.upper forms (differs from casefold only for non-ASCII existing names such as U+212A). "
+      "Engine-level use (AddColumn/AddTable) exercised separately.",
+      "Lean 4 theorems (induction + pigeonhole termination) + differential correspondence + direct oracle")
